@@ -84,6 +84,23 @@ pub fn run_history(spec_flags: &Flags, prog: &Arc<Program>, hist: &[Op], stats: 
     let sweep: Vec<Op> = if spec_flags.fresh_end { (0..prog.nodes.len() as u8).map(Op::Q).collect() } else { Vec::new() };
     let mut fresh_sweep: Option<Sess> = None;
     let trace = std::env::var("MC_TRACE").is_ok();
+    // C05: the same history on a twin database whose lru functions are ordinary functions
+    let mut twin: Option<Sess> = if spec_flags.lru_twin {
+        let mut p2 = (**prog).clone();
+        for n in p2.nodes.iter_mut() {
+            if n.kind == Kind::Lru {
+                n.kind = Kind::Ev;
+            }
+        }
+        let t = Sess::new(Arc::new(p2));
+        t.db.cx_arc().logging.store(false, std::sync::atomic::Ordering::SeqCst);
+        Some(t)
+    } else {
+        None
+    };
+    // external state changed without a new revision: the reference (which reads the current
+    // external state) and a fresh database are not comparable until the next revision starts
+    let mut ext_dirty = false;
     for (i, op) in hist.iter().chain(sweep.iter()).enumerate() {
         let is_sweep = i >= n_hist;
         let pre_world = if spec_flags.needs_pre_world { Some(world.clone()) } else { None };
@@ -91,7 +108,53 @@ pub fn run_history(spec_flags: &Flags, prog: &Arc<Program>, hist: &[Op], stats: 
             Some(e) => e,
             None => world.expect(op),
         };
-        let out = sess.apply(op);
+        let mut out = sess.apply(op);
+        let mut exp = exp;
+        match op {
+            Op::SetExt(..) => ext_dirty = true,
+            Op::Set(..) | Op::SetD(..) | Op::Syn(_) | Op::SetExtSyn(..) | Op::Swap(_) => ext_dirty = false,
+            _ => {}
+        }
+        if ext_dirty && is_request(op) {
+            exp = Expect::Undefined;
+        }
+        if let Some(t) = twin.as_mut() {
+            if !matches!(op, Op::LruCap(_) | Op::LruTrig) {
+                let t_out = t.apply(op);
+                stats.checks += 1;
+                if is_request(op) && !same_out(&t_out, &out) {
+                    ro.viol = Some((
+                        "lru-not-transparent".into(),
+                        format!("step {i} {op:?}: with the lru function the request answers {out:?}, with unbounded caching {t_out:?}"),
+                        i,
+                    ));
+                    return ro;
+                }
+            }
+        }
+        if prog.name.starts_with("acc-post") {
+            // pushes after calls: the statement's "execution order" and salsa's documented order
+            // (a function's own values first) differ, so only the multiset is compared
+            if let (Expect::Vals(e), Out::Vals(o)) = (&mut exp, &mut out) {
+                e.sort();
+                o.sort();
+            }
+        }
+        if spec_flags.cycle_panic && is_request(op) {
+            // C14: whether a non-recovering function is re-entered depends on the request order
+            // and on which memos are still valid; the operational oracle (mon.rs) decides whether
+            // a panic is due. A returned value must be the least fixpoint of all equations.
+            let mut w2 = world.clone();
+            for k in w2.kinds.iter_mut() {
+                if *k == Kind::Ev {
+                    *k = Kind::Fx;
+                }
+            }
+            exp = match (&out, w2.expect(op)) {
+                (Out::Panic(Pk::Cycle), _) | (Out::Panic(Pk::CancelPropagated), _) => Expect::Undefined,
+                (_, e) => e,
+            };
+        }
         let log = sess.db.cx_arc().take_log();
         if trace {
             eprintln!("== step {i}{} {op:?} -> {out:?} (expected {exp:?})", if is_sweep { " (sweep)" } else { "" });
@@ -124,7 +187,7 @@ pub fn run_history(spec_flags: &Flags, prog: &Arc<Program>, hist: &[Op], stats: 
             return ro;
         }
         // fresh-database differential: on every request (thorough) and on the final sweep
-        if is_sweep || (spec_flags.fresh_each && is_request(op)) {
+        if !ext_dirty && (is_sweep || (spec_flags.fresh_each && is_request(op))) {
             let f_out = if is_sweep {
                 if fresh_sweep.is_none() {
                     let f = Sess::new(Arc::new(snapshot_program(prog, &world)));
@@ -228,7 +291,7 @@ pub fn run_worker(spec: &Spec, w: usize, nw: usize) -> WorkerOut {
                     out.stats.samples.push(json!({"program": prog.name, "history": format!("{hist:?}")}));
                 }
                 if let Some((oracle, msg, step)) = r.viol {
-                    let classified = oracle.starts_with("cycle-") || oracle.starts_with("stale-cycle") || oracle.starts_with("fallback-participant");
+                    let classified = oracle.starts_with("cycle-") || oracle.starts_with("stale-cycle") || oracle.starts_with("fallback-participant") || oracle.starts_with("specified-to-computed");
                     let sig = if classified { format!("{}:{}", spec.id, oracle) } else { format!("{}:{}:{}", spec.id, oracle, prog.name) };
                     if viol_sigs.insert(sig.clone()) {
                         out.viols.push(Viol {
